@@ -37,7 +37,7 @@ CHECKS = {
    text="For sampled (input, interface) pairs the generated files must be byte-identical across seeded perturbations of every nondeterminism source mfront can observe and across run histories (fresh, repeated, after other inputs).",
    note="Trusted: the list of intercepted sources is complete for what mfront reads (checked with strace/ltrace during design).",
    design="§3 C36"),
- "C47": dict(ready=False, level="fault_enumeration", engine="preload",
+ "C47": dict(ready=True, level="fault_enumeration", engine="preload",
    technique="crash-point enumeration: real mfront under an LD_PRELOAD I/O layer, kill/ENOSPC injected at every I/O event of a chosen run inside seeded histories; union-model and crash-recovery oracle on src/targets.lst",
    text="Fault-free histories are compared with a set-union reference model and write/read idempotence; for a crashing run every I/O event index x {kill before, kill after, torn write} is enumerated, and the following successful run must either report the damaged registry or keep every library registered before the crash.",
    note="Kill model (process death), not power loss: data for which write() returned is durable. Trusted: the small registry parser in the driver.",
